@@ -1,6 +1,6 @@
 (* C02 - decompiled Lingo denotes the compiled statements and expressions.  Property theorems only. *)
 From Coq Require Import ZArith List String.
-From DRX Require Import Py.PyBytes Model.LingoAst Model.LingoGen Model.LingoOps Model.LingoLoop Spec.SpecLingo Spec.SpecText Proofs.LingoExecFacts Proofs.LingoStmtFacts Proofs.LingoTextFacts.
+From DRX Require Import Py.PyBytes Model.LingoAst Model.LingoGen Model.LingoOps Model.LingoLoop Spec.SpecLingo Spec.SpecText Proofs.LingoExecFacts Proofs.LingoStmtFacts Proofs.LingoTextFacts Proofs.LingoParseFacts.
 Import ListNotations.
 Open Scope Z_scope.
 
@@ -51,3 +51,22 @@ Theorem C02_emitted_text_is_canonical :
   forall en e, text_ok en e -> forall pc ind, gen_lingo (reify_e en pc e) ind = render en (pp_tok en e).
 Proof. exact gen_lingo_is_render. Qed.
 Print Assumptions C02_emitted_text_is_canonical.
+
+(* Reading back: the precedence parser (Lingo's operator levels, precedence climbing) reads the canonical token
+   list of any expression back as exactly that expression - operators, operand order, variable kinds and
+   numbers, literals, argument order, list shapes.  Together with the two theorems above: the bytes of e
+   decompile to a tree whose emitted text is render (pp_tok e), and pp_tok e parses to e.  (What is not proved:
+   that splitting the rendered text into tokens gives back pp_tok e - the lexer and the scope rules that tell
+   a local from a parameter / global / property by its spelling; the harness does that step with the
+   independent tokenizer of tie/lingo_spec.py on every generated program.) *)
+Theorem C02_canonical_text_parses_back :
+  forall en e fuel, lists_even e -> (3 * size e <= fuel)%nat -> parse_expr fuel (strip (pp_tok en e)) = Some (e, []).
+Proof. exact parse_expr_pp. Qed.
+Print Assumptions C02_canonical_text_parses_back.
+
+(* and inside any context: followed by arbitrary further tokens (not an opening parenthesis) *)
+Theorem C02_canonical_text_parses_back_in_context :
+  forall en e, lists_even e -> forall fuel rest, (3 * size e <= fuel)%nat -> rest_ok rest ->
+    parse_u fuel (strip (pp_tok en e) ++ rest) = Some (e, rest).
+Proof. exact parse_pp. Qed.
+Print Assumptions C02_canonical_text_parses_back_in_context.
